@@ -37,6 +37,7 @@ var treePlan = []planEntry{
 	{spaces.XWs, 5, 6},
 	{spaces.XNest, 7, 8},
 	{spaces.XMlRef, 5, 6},
+	{spaces.XNulRef, 5, 6},
 }
 
 // forPlan runs f over every space of a plan at the tier's length.
